@@ -321,6 +321,10 @@ class Rule_AL05(BaseRule):
                         dialect_name=query.dialect.name,
                     )
                     for tr in table_refs:
+                        # An empty part (e.g. the middle of BigQuery's
+                        # `project..table`) has no segments to resolve.
+                        if not tr.segments:
+                            continue
                         # This function walks up the query's parent stack if necessary.
                         self._resolve_and_mark_reference(query, tr.segments[0])
                     # A bare, single-part reference (e.g. `t` in `to_json(t)` or
